@@ -114,7 +114,12 @@ func matchSeriesKeyTagFilter(tags influx.PointTags, tf *tagFilter, tagArray bool
 
 	var re *regexp.Regexp
 	if tf.isRegexp {
-		re = regexp.MustCompile(matchValue)
+		if tf.isLiteralRegexp {
+			// the value is the unescaped literal of a regexp without metacharacters, not a regexp
+			re = regexp.MustCompile(regexp.QuoteMeta(matchValue))
+		} else {
+			re = regexp.MustCompile(matchValue)
+		}
 	}
 
 	for _, tag := range tags {
